@@ -86,23 +86,34 @@ type Program struct {
 	NumEdges    int
 }
 
-// Load loads one configuration of the repository at dir.
-func Load(dir string, cfg Config) (*Program, error) {
-	env := append(os.Environ(),
+// LoadEnv returns the environment and build flags with which configuration cfg is loaded.
+func LoadEnv(cfg Config) (env []string, buildFlags []string) {
+	env = append(os.Environ(),
 		"GOFLAGS=-mod=mod", "GOPROXY=off", "GOSUMDB=off", "GOWORK=off", "GOTOOLCHAIN=local",
 		"GOARCH="+cfg.GOARCH, "GOOS=linux")
 	if cfg.GOARCH != "amd64" {
 		env = append(env, "CGO_ENABLED=0")
 	}
-	pc := &packages.Config{
-		Mode:  packages.LoadAllSyntax,
-		Dir:   dir,
-		Env:   env,
-		Tests: false,
-		Fset:  token.NewFileSet(),
-	}
 	if cfg.Tags != "" {
-		pc.BuildFlags = []string{"-tags=" + cfg.Tags}
+		buildFlags = []string{"-tags=" + cfg.Tags}
+	}
+	return env, buildFlags
+}
+
+// Load loads one configuration of the repository at dir.
+func Load(dir string, cfg Config) (*Program, error) { return LoadOverlay(dir, cfg, nil) }
+
+// LoadOverlay loads one configuration with some files replaced (an equivalent form of the source, see package norm).
+func LoadOverlay(dir string, cfg Config, overlay map[string][]byte) (*Program, error) {
+	env, flags := LoadEnv(cfg)
+	pc := &packages.Config{
+		Mode:       packages.LoadAllSyntax,
+		Dir:        dir,
+		Env:        env,
+		Tests:      false,
+		Fset:       token.NewFileSet(),
+		BuildFlags: flags,
+		Overlay:    overlay,
 	}
 	pkgs, err := packages.Load(pc, "./glow", "./server", "./client", "./bin/...")
 	if err != nil {
